@@ -1524,6 +1524,132 @@ def expand_descriptors(modules, log):
         ast.fix_missing_locations(mi.tree)
 
 
+def inline_context_managers(modules, known_funcs, log):
+    """`with cm(args) [as v]: BODY` for a @contextmanager generator introduced by a refactoring (module-level function or
+    method called on self, one yield, optionally inside one try) is written out: the code before the yield, BODY in the place
+    of the yield (inside the generator's try / except / finally if it has one), the code after it."""
+    for mi in modules.values():
+        cms = {}
+        for holder, cls in [(mi.tree, None)] + [(c, c) for c in mi.tree.body if isinstance(c, ast.ClassDef)]:
+            for fn in [x for x in holder.body if isinstance(x, ast.FunctionDef)]:
+                q = f"{mi.name}.{cls.name + '.' if cls else ''}{fn.name}"
+                if q in known_funcs or not any(ast.unparse(d).split(".")[-1] == "contextmanager" for d in fn.decorator_list):
+                    continue
+                ys = [n for n in ast.walk(fn) if isinstance(n, (ast.Yield, ast.YieldFrom))]
+                if len(ys) != 1 or isinstance(ys[0], ast.YieldFrom):
+                    continue
+                body = [x for x in fn.body if not (isinstance(x, ast.Expr) and isinstance(x.value, ast.Constant))]
+                # locate the statement holding the yield: top level, or top level of one try body
+                where = None
+                for i, st in enumerate(body):
+                    if isinstance(st, ast.Expr) and st.value is ys[0]:
+                        where = ("top", i, None)
+                    elif isinstance(st, ast.Try):
+                        for j, t in enumerate(st.body):
+                            if isinstance(t, ast.Expr) and t.value is ys[0]:
+                                where = ("try", i, j)
+                if where is None or any(isinstance(n, ast.Return) and n.value is not None for n in ast.walk(fn)):
+                    continue
+                cms[(cls.name if cls else None, fn.name)] = (fn, body, where, ys[0])
+        if not cms:
+            continue
+
+        def expand(w, owner_cls):
+            if len(w.items) != 1:
+                return None
+            it = w.items[0]
+            c = it.context_expr
+            if not isinstance(c, ast.Call):
+                return None
+            key = None
+            if isinstance(c.func, ast.Name) and (None, c.func.id) in cms:
+                key = (None, c.func.id)
+            elif isinstance(c.func, ast.Attribute) and isinstance(c.func.value, ast.Name) and c.func.value.id == "self" and owner_cls is not None and (owner_cls, c.func.attr) in cms:
+                key = (owner_cls, c.func.attr)
+            if key is None:
+                return None
+            fn, body, where, y = cms[key]
+            params = [a.arg for a in fn.args.args]
+            if key[0] is not None and params and params[0] == "self":
+                params = params[1:]
+            if any(isinstance(a, ast.Starred) for a in c.args) or any(k.arg is None for k in c.keywords) or fn.args.vararg or fn.args.kwarg:
+                return None
+            mapping = {}
+            for pn, av in zip(params, c.args):
+                mapping[pn] = av
+            for k in c.keywords:
+                mapping[k.arg] = k.value
+            for pn, dv in zip(reversed(params), reversed(fn.args.defaults)):
+                mapping.setdefault(pn, dv)
+            if set(mapping) != set(params) or not all(isinstance(v, (ast.Name, ast.Constant, ast.Attribute)) for v in mapping.values()):
+                return None
+            stored = {n.id for n in ast.walk(fn) if isinstance(n, ast.Name) and isinstance(n.ctx, ast.Store)}
+            if stored & set(params):
+                return None
+
+            def clone(st):
+                return _NameSubst(mapping).visit(ast.parse(ast.unparse(st)).body[0])
+
+            inner = list(w.body)
+            if it.optional_vars is not None and y.value is not None:
+                inner = [ast.Assign(targets=[it.optional_vars], value=_NameSubst(mapping).visit(ast.parse(ast.unparse(y.value), mode="eval").body))] + inner
+            kind, i, j = where
+            pre = [clone(x) for x in body[:i]]
+            post = [clone(x) for x in body[i + 1 :]]
+            if kind == "top":
+                out = pre + inner + post
+            else:
+                t = clone(body[i])
+                t.body = t.body[:j] + inner + t.body[j + 1 :]
+                out = pre + [t] + post
+            for x in out:
+                ast.copy_location(x, w)
+                for z in ast.walk(x):
+                    if not hasattr(z, "lineno"):
+                        ast.copy_location(z, w)
+                ast.fix_missing_locations(x)
+            log.append(f"context manager {key[1]} written out {mi.name}:{w.lineno}")
+            return out
+
+        def rec(stmts, owner_cls):
+            out = []
+            for st in stmts:
+                for field in ("body", "orelse", "finalbody"):
+                    blk = getattr(st, field, None)
+                    if isinstance(blk, list) and blk and isinstance(blk[0], ast.stmt) and not isinstance(st, ast.ClassDef):
+                        setattr(st, field, rec(blk, owner_cls))
+                if isinstance(st, ast.Try):
+                    for h in st.handlers:
+                        h.body = rec(h.body, owner_cls)
+                if isinstance(st, ast.With):
+                    ex = expand(st, owner_cls)
+                    if ex is not None:
+                        out += ex
+                        continue
+                out.append(st)
+            return out
+
+        for st in mi.tree.body:
+            if isinstance(st, ast.FunctionDef) and (None, st.name) not in cms:
+                st.body = rec(st.body, None)
+            elif isinstance(st, ast.ClassDef):
+                for m in st.body:
+                    if isinstance(m, ast.FunctionDef) and (st.name, m.name) not in cms:
+                        m.body = rec(m.body, st.name)
+        # drop the generators that are no longer referenced
+        names = {x.id for x in ast.walk(mi.tree) if isinstance(x, ast.Name)} | {x.attr for x in ast.walk(mi.tree) if isinstance(x, ast.Attribute)}
+        for (cn, fnname), (fn, *_r) in cms.items():
+            if fnname in names:
+                continue
+            if cn is None:
+                mi.tree.body = [x for x in mi.tree.body if x is not fn]
+            else:
+                for c in mi.tree.body:
+                    if isinstance(c, ast.ClassDef) and c.name == cn:
+                        c.body = [x for x in c.body if x is not fn] or [ast.Pass()]
+        ast.fix_missing_locations(mi.tree)
+
+
 def prefix_decorators(modules, known_funcs, log):
     """A decorator introduced by a refactoring whose wrapper only runs some statements and then calls the wrapped function
     with the same arguments --
@@ -1731,6 +1857,7 @@ def run(modules, known_funcs):
     classmethod_constructors(modules, log)
     composed_decorators(modules, known_funcs, log)
     prefix_decorators(modules, known_funcs, log)
+    inline_context_managers(modules, known_funcs, log)
     inline_constants(modules, log)
     intenum_members(modules, log)
     peewee_shortcuts(modules, log)
